@@ -94,6 +94,10 @@ func newFlattener(schema *graphql.Schema) (*flattener, error) {
 
 // applies checks if obj matches fragment.
 func (f *flattener) applies(obj *graphql.Object, fragment *graphql.Fragment) (bool, error) {
+	if fragment.On == "" {
+		// An inline fragment without type condition applies to the enclosing type.
+		return true, nil
+	}
 	switch typ := f.types[fragment.On].(type) {
 	case *graphql.Object:
 		// An object matches if the name matches.
